@@ -1,4 +1,247 @@
+/-
+C36 — Distributions have the values and weights they advertise.
+
+Statements are about `AbtemVerif.Distributions.*` (Model/Distributions.lean).  The arguments `uniform` and `gaussian`
+hand to `numpy.linspace` and the Gaussian weight profile are generated from abtem/distributions.py on every run
+(`Gen/Distributions.lean` exact, `Gen/DistributionsR.lean` over ℝ, `Gen/DistributionsF.lean` executed and compared with
+numpy); `numpy.linspace` is `Np.linspace` (Lib/Linspace.lean); block slicing is `Partition.splitBy` (Lib/Partition.lean).
+The two normalisation lines (`weights /= sqrt((weights**2).sum())`, `weights /= weights.sum()`) are modelled by
+`normIntensity` / `normAmplitude` below (ℝ) and by `gaussianWeightsF` (Float, executed).
+-/
 import AbtemVerif.Model.Distributions
+import AbtemVerif.Gen.DistributionsR
+import AbtemVerif.Lib.Linspace
+import AbtemVerif.Lib.Partition
+import Mathlib.Analysis.SpecialFunctions.Exp
+import Mathlib.Analysis.SpecialFunctions.Sqrt
+
 namespace AbtemVerif.Props.C36
-theorem stub : True := trivial
+open AbtemVerif.Distributions AbtemVerif.Np AbtemVerif.Partition AbtemVerif.Gen.Distributions
+
+/-! ### uniform -/
+
+/-- **`uniform(low, high, n, endpoint)`**: exactly `n` values `low + i·step` with `step = (high − low)/(n − 1)`
+(`/n` without endpoint; `numpy.linspace` semantics incl. `n = 0, 1`), all weights `1`. -/
+theorem uniform_spec (low high : Rat) (n : Nat) (e em : Bool) :
+    uniform low high (n : Int) e em = .ok
+      { values := (List.range n).map fun (i : Nat) => low + (i : Rat) * linspaceStep low high n e,
+        weights := List.replicate n 1, ensembleMean := em } := by
+  unfold uniform uniformStart uniformStop uniformNum uniformEndpoint
+  rw [linspaceI_nonneg, linspace_eq_map]
+  simp [Except.map]
+
+/-- a negative number of samples is rejected (ValueError from numpy) -/
+theorem uniform_negative (low high : Rat) (n : Int) (e em : Bool) (h : n < 0) :
+    (uniform low high n e em).toOption.isNone = true := by
+  unfold uniform uniformNum
+  rw [linspaceI_neg _ _ _ _ h]; rfl
+
+/-- with endpoint and at least two samples the last value is `high`; the first is always `low` -/
+theorem uniform_ends (low high : Rat) (n : Nat) (hn : 2 ≤ n) :
+    low + ((0 : Nat) : Rat) * linspaceStep low high n true = low ∧
+    low + ((n - 1 : Nat) : Rat) * linspaceStep low high n true = high := by
+  constructor
+  · simp
+  · have h := linspace_last_endpoint low high n hn
+    rw [linspace_getElem] at h
+    exact h
+
+/-! ### gaussian: values -/
+
+/-- the values of a Gaussian factor are `numpy.linspace(c − σ·L, c + σ·L, n)` (endpoint included) -/
+theorem gaussian_values_spec (sigma limit center : Rat) (n : Nat) :
+    gaussianValues sigma limit center (n : Int) = .ok (linspace (center - sigma * limit) (center + sigma * limit) n true) := by
+  unfold gaussianValues gaussLow gaussHigh gaussNum
+  rw [linspaceI_nonneg]
+  congr 2 <;> ring
+
+/-- **Symmetry about the centre**: value `i` and value `n−1−i` are mirror images, `v_i + v_{n−1−i} = 2c` -/
+theorem gaussian_symmetric (sigma limit center : Rat) (n : Nat) (hn : 2 ≤ n) (i : Nat) (hi : i < n) :
+    (linspace (center - sigma * limit) (center + sigma * limit) n true)[i]'(by simpa using hi)
+      + (linspace (center - sigma * limit) (center + sigma * limit) n true)[n - 1 - i]'(by simp; omega) = 2 * center := by
+  rw [linspace_reflect _ _ n i hi]
+  have : n ≠ 1 := by omega
+  simp only [this, if_false]; ring
+
+/-- **Within the sampling limit**: every value lies in `[c − σL, c + σL]`, the first and the last on the boundary -/
+theorem gaussian_within_limit (sigma limit center : Rat) (n : Nat) (hn : 2 ≤ n) (hs : 0 ≤ sigma * limit) (i : Nat) (hi : i < n) :
+    center - sigma * limit ≤ (linspace (center - sigma * limit) (center + sigma * limit) n true)[i]'(by simpa using hi) ∧
+    (linspace (center - sigma * limit) (center + sigma * limit) n true)[i]'(by simpa using hi) ≤ center + sigma * limit := by
+  rw [linspace_getElem, linspace_step_endpoint _ _ n (by omega)]
+  have hn1 : (0 : Rat) < (n : Rat) - 1 := by
+    have : (2 : Rat) ≤ (n : Rat) := by exact_mod_cast hn
+    linarith
+  have hi0 : (0 : Rat) ≤ (i : Rat) := by exact_mod_cast Nat.zero_le i
+  have hi1 : (i : Rat) ≤ (n : Rat) - 1 := by
+    have : (i : Rat) + 1 ≤ (n : Rat) := by exact_mod_cast hi
+    linarith
+  have hd : 0 ≤ (center + sigma * limit - (center - sigma * limit)) / ((n : Rat) - 1) := by
+    apply div_nonneg _ (le_of_lt hn1); linarith
+  constructor
+  · nlinarith
+  · have h1 : (i : Rat) * ((center + sigma * limit - (center - sigma * limit)) / ((n : Rat) - 1))
+        ≤ ((n : Rat) - 1) * ((center + sigma * limit - (center - sigma * limit)) / ((n : Rat) - 1)) :=
+      mul_le_mul_of_nonneg_right hi1 hd
+    have h2 : ((n : Rat) - 1) * ((center + sigma * limit - (center - sigma * limit)) / ((n : Rat) - 1))
+        = center + sigma * limit - (center - sigma * limit) := by field_simp
+    linarith
+
+theorem gaussian_first_last (sigma limit center : Rat) (n : Nat) (hn : 2 ≤ n) :
+    (linspace (center - sigma * limit) (center + sigma * limit) n true)[0]'(by simp; omega) = center - sigma * limit ∧
+    (linspace (center - sigma * limit) (center + sigma * limit) n true)[n - 1]'(by simp; omega) = center + sigma * limit :=
+  ⟨linspace_head _ _ n true (by omega), linspace_last_endpoint _ _ n hn⟩
+
+/-! ### gaussian: weights -/
+
+open AbtemVerif.Gen.DistributionsR in
+/-- **Gaussian profile**: the generated weight expression is `exp(−(v − c)² / (2σ²))` -/
+theorem gaussian_profile (v c s : ℝ) : gaussWeight v c s = Real.exp (-((v - c) ^ 2) / (2 * s ^ 2)) := by
+  unfold gaussWeight
+  congr 1
+  by_cases hs : s = 0
+  · subst hs; simp
+  · field_simp
+
+open AbtemVerif.Gen.DistributionsR in
+/-- weights are positive, and symmetric about the centre (so mirror-image values carry equal weights) -/
+theorem gaussian_weight_pos_symm (v c s : ℝ) : 0 < gaussWeight v c s ∧ gaussWeight (2 * c - v) c s = gaussWeight v c s := by
+  constructor
+  · unfold gaussWeight; exact Real.exp_pos _
+  · unfold gaussWeight
+    congr 2
+    ring
+
+/-- `weights /= np.sqrt((weights**2).sum())` -/
+noncomputable def normIntensity (w : List ℝ) : List ℝ := w.map fun x => x / Real.sqrt ((w.map fun y => y ^ 2).sum)
+/-- `weights /= weights.sum()` -/
+noncomputable def normAmplitude (w : List ℝ) : List ℝ := w.map fun x => x / w.sum
+
+lemma sum_map_div (l : List ℝ) (f : ℝ → ℝ) (c : ℝ) : (l.map fun x => f x / c).sum = (l.map f).sum / c := by
+  induction l with
+  | nil => simp
+  | cons a t ih => simp only [List.map_cons, List.sum_cons, ih]; ring
+
+lemma sum_sq_pos (w : List ℝ) (hne : w ≠ []) (hp : ∀ x ∈ w, 0 < x) : 0 < (w.map fun y => y ^ 2).sum := by
+  cases w with
+  | nil => exact absurd rfl hne
+  | cons a t =>
+    simp only [List.map_cons, List.sum_cons]
+    have ha : 0 < a ^ 2 := by have := hp a (by simp); positivity
+    have ht : 0 ≤ (t.map fun y => y ^ 2).sum := by
+      apply List.sum_nonneg
+      intro x hx
+      obtain ⟨y, _, rfl⟩ := List.mem_map.mp hx
+      positivity
+    linarith
+
+/-- **Unit norm ('intensity')**: after `weights /= sqrt(Σ w²)` the squares of the weights sum to one — for every
+non-empty list of positive weights (Gaussian weights are positive) -/
+theorem norm_intensity (w : List ℝ) (hne : w ≠ []) (hp : ∀ x ∈ w, 0 < x) :
+    ((normIntensity w).map fun x => x ^ 2).sum = 1 := by
+  unfold normIntensity
+  have hS := sum_sq_pos w hne hp
+  rw [List.map_map]
+  have : ((fun x => x ^ 2) ∘ fun x => x / Real.sqrt ((w.map fun y => y ^ 2).sum))
+      = fun x => x ^ 2 / (w.map fun y => y ^ 2).sum := by
+    funext x
+    simp only [Function.comp, div_pow, Real.sq_sqrt (le_of_lt hS)]
+  rw [this, sum_map_div w (fun x => x ^ 2)]
+  exact div_self (ne_of_gt hS)
+
+/-- **Unit sum ('amplitude')**: after `weights /= Σ w` the weights sum to one -/
+theorem norm_amplitude (w : List ℝ) (hs : w.sum ≠ 0) : (normAmplitude w).sum = 1 := by
+  unfold normAmplitude
+  have := sum_map_div w (fun x => x) w.sum
+  simp only [List.map_id'] at this
+  rw [this]; exact div_self hs
+
+/-- normalisation rescales all weights by one common positive factor, so the profile (all ratios) is kept -/
+theorem norm_keeps_profile (w : List ℝ) (i j : Nat) (hi : i < w.length) (hj : j < w.length) :
+    (normIntensity w)[i]'(by simpa [normIntensity] using hi) * w[j] = (normIntensity w)[j]'(by simpa [normIntensity] using hj) * w[i] := by
+  simp only [normIntensity, List.getElem_map]; ring
+
+/-! ### negation, division, products -/
+
+/-- **Negation negates the values only** -/
+theorem neg_values_only {ω} (d : Distributions.Dist ω) :
+    (neg d).values = d.values.map (fun v => -v) ∧ (neg d).weights = d.weights ∧ (neg d).ensembleMean = d.ensembleMean :=
+  ⟨rfl, rfl, rfl⟩
+
+theorem neg_neg {ω} (d : Distributions.Dist ω) : neg (neg d) = d := by
+  cases d; simp [neg, Function.comp]
+
+lemma map_fst_zip {α β} : ∀ (l1 : List α) (l2 : List β), l1.length = l2.length → (List.zip l1 l2).map Prod.fst = l1
+  | [], _, _ => by simp
+  | a :: t, [], h => by simp at h
+  | a :: t, b :: u, h => by simp [map_fst_zip t u (by simpa using h)]
+
+lemma map_snd_zip {α β} : ∀ (l1 : List α) (l2 : List β), l1.length = l2.length → (List.zip l1 l2).map Prod.snd = l2
+  | [], [], _ => by simp
+  | [], b :: u, h => by simp at h
+  | a :: t, [], h => by simp at h
+  | a :: t, b :: u, h => by simp [map_snd_zip t u (by simpa using h)]
+
+/-- **Dividing a distribution into chunks partitions its values and its weights**: for every chunk tuple summing to
+the length, the blocks' values concatenate to the values, their weights to the weights, block `k` has `chunks[k]`
+entries, and every block keeps the `ensemble_mean` flag. -/
+theorem divide_partitions {ω} (d : Distributions.Dist ω) (cs : List Nat) (hs : cs.sum = d.values.length) (hw : d.weights.length = d.values.length) :
+    ∃ bs, divide d cs = .ok bs ∧ (bs.map fun b => b.values).flatten = d.values ∧ (bs.map fun b => b.weights).flatten = d.weights ∧
+      (bs.map fun b => b.values.length) = cs ∧ ∀ b ∈ bs, b.ensembleMean = d.ensembleMean := by
+  refine ⟨(List.zip (splitBy cs d.values) (splitBy cs d.weights)).map fun x =>
+      ({ values := x.1, weights := x.2, ensembleMean := d.ensembleMean } : Distributions.Dist ω), by simp [divide, hs], ?_, ?_, ?_, ?_⟩
+  · rw [List.map_map]
+    have : ((fun b : Distributions.Dist ω => b.values) ∘ fun x : List Rat × List ω => ({ values := x.1, weights := x.2, ensembleMean := d.ensembleMean } : Distributions.Dist ω))
+        = Prod.fst := by funext x; rfl
+    rw [this, map_fst_zip _ _ (by simp), flatten_splitBy cs d.values (by omega)]
+  · rw [List.map_map]
+    have : ((fun b : Distributions.Dist ω => b.weights) ∘ fun x : List Rat × List ω => ({ values := x.1, weights := x.2, ensembleMean := d.ensembleMean } : Distributions.Dist ω))
+        = Prod.snd := by funext x; rfl
+    rw [this, map_snd_zip _ _ (by simp), flatten_splitBy cs d.weights (by omega)]
+  · rw [List.map_map]
+    have : ((fun b : Distributions.Dist ω => b.values.length) ∘ fun x : List Rat × List ω => ({ values := x.1, weights := x.2, ensembleMean := d.ensembleMean } : Distributions.Dist ω))
+        = List.length ∘ Prod.fst := by funext x; rfl
+    rw [this, ← List.map_map, map_fst_zip _ _ (by simp), map_length_splitBy cs d.values (by omega)]
+  · intro b hb
+    obtain ⟨x, _, rfl⟩ := List.mem_map.mp hb
+    rfl
+
+/-- chunks that do not sum to the length are rejected (the `assert`) -/
+theorem divide_rejects {ω} (d : Distributions.Dist ω) (cs : List Nat) (hs : cs.sum ≠ d.values.length) : divide d cs = .error "assertion_error" := by
+  simp [divide, hs]
+
+lemma sum_outer_row (x : ℝ) (b : List ℝ) (f : ℝ → ℝ) (hf : ∀ u v, f (u * v) = f u * f v) :
+    ((b.map fun y => x * y).map f).sum = f x * (b.map f).sum := by
+  induction b with
+  | nil => simp
+  | cons y t ih => simp only [List.map_cons, List.sum_cons, ih, hf]; ring
+
+/-- **Product distributions**: the weights of a two-factor distribution are the outer product, whose squares sum to
+the product of the factors' sums of squares and whose entries sum to the product of the sums — so a product of
+'intensity' (resp. 'amplitude') normalised factors is normalised the same way. -/
+theorem outer_norms (a b : List ℝ) :
+    ((outer a b).map fun row => (row.map fun x => x ^ 2).sum).sum = (a.map fun x => x ^ 2).sum * (b.map fun x => x ^ 2).sum ∧
+    ((outer a b).map fun row => row.sum).sum = a.sum * b.sum := by
+  unfold outer
+  constructor
+  · induction a with
+    | nil => simp
+    | cons x t ih =>
+      simp only [List.map_cons, List.sum_cons, ih, sum_outer_row x b (fun u => u ^ 2) (fun u v => mul_pow u v 2)]
+      ring
+  · induction a with
+    | nil => simp
+    | cons x t ih =>
+      have := sum_outer_row x b (fun u => u) (fun u v => rfl)
+      simp only [List.map_id'] at this
+      simp only [List.map_cons, List.sum_cons, ih, this]
+      ring
+
+/-! ### non-vacuity -/
+example : (match uniform 0 1 5 true false with | .ok d => d.values == [0, 1/4, 1/2, 3/4, 1] && d.weights == [1, 1, 1, 1, 1] | _ => false) = true := by
+  decide +kernel
+example : (match gaussianValues 1 3 0 5 with | .ok v => v == [-3, -3/2, 0, 3/2, 3] | _ => false) = true := by decide +kernel
+example : ∃ w : List ℝ, w ≠ [] ∧ ∀ x ∈ w, 0 < x := ⟨[1, 2], by simp, by intro x hx; simp at hx; rcases hx with rfl | rfl <;> norm_num⟩
+example : (match divide ({ values := [1, 2, 3], weights := [1, 1, 1], ensembleMean := true } : Distributions.Dist Rat) [2, 1] with
+    | .ok bs => bs.map (fun b => b.values) == [[1, 2], [3]] | _ => false) = true := by decide +kernel
+
 end AbtemVerif.Props.C36
